@@ -152,6 +152,15 @@ CHECKS.update({
         design="5/C13"),
 })
 
+CHECKS.update({
+    "C04": dict(
+        engine="tgv-syntax",
+        technique=FORM_E + "; the documented grammar is data (two BNF files), sentences are enumerated exhaustively by derivation, non-sentences are decided by an independent Earley recogniser over token kinds",
+        text="Every derivation of the narrow grammar G_gen below the stratum bounds is rendered, parsed by the real parser (zero errors required) and compared, constituent by constituent in source order, with the tree obtained by calling only the typed accessors; every token-kind word up to the length bound and every single (thorough: double) token mutation of the short sentences is classified by Earley recognisers of G_gen and of the wide grammar G_rec - inside G_gen no error may be reported, outside G_rec at least one must be; all seed and real-world corpus files must parse cleanly.",
+        note="G_rec minus G_gen is a stated don't-care zone, so the check never demands more than the property states whichever way the parser leans",
+        design="5/C04"),
+})
+
 NOT_YET = {}
 
 def main():
